@@ -64,6 +64,19 @@ def run_header(case: dict) -> list[tuple[str, str]]:
                 generalized_statements=case["generalized"], rdf_star=case["rdf_star"],
                 version=case["req_version"], delimited=case["delimited"],
                 namespace_declarations=case["ns"], stream_name=case["stream_name"])
+        if case.get("derived"):
+            # the options object has a past: it configured another stream (logical type lt0)
+            # before it was changed / copied with dataclasses.replace() for this one
+            import dataclasses  # noqa: PLC0415
+
+            lt0, how = case["derived"]
+            opts.logical_type = lt0
+            first = DR.g_stream(cls, opts) if case["api"] == "generic" else DR.r_stream(cls, opts)
+            first.enroll()
+            if how == "replace":
+                opts = dataclasses.replace(opts, logical_type=lt)
+            else:
+                opts.logical_type = lt
         if case.get("flow", "manual") == "manual":
             opts.flow = ManualFrameFlow(logical_type=lt)
         stream = DR.g_stream(cls, opts) if case["api"] == "generic" else DR.r_stream(cls, opts)
@@ -340,6 +353,24 @@ def shard(job) -> dict:
                         acc.violation({"part": "header", "fail": kind}, f"{msg} case={c}", c)
         if pts:
             acc.sample({"part": "header", "example": list(pts[0])}, cap=1)
+    elif job[0] == "derived":
+        for api in ("generic", "rdflib"):
+            for cls in DR.CLASSES:
+                ok = [x for x in LOGICAL if pair_allowed(DR.PT[cls], x)]
+                for lt0 in ok:
+                    for lt in ok:
+                        for how in ("replace", "mutate"):
+                            for ns in (False, True):
+                                c = {"part": "header", "api": api, "cls": cls, "logical": lt,
+                                     "preset": [8, 0, 1], "generalized": False, "rdf_star": False,
+                                     "ns": ns, "delimited": True, "stream_name": "",
+                                     "req_version": None, "flow": "inferred",
+                                     "derived": [lt0, how]}
+                                acc.evals += 1
+                                acc.nontrivial += 1
+                                for kind, msg in run_header(c):
+                                    acc.violation({"part": "header", "fail": kind, "derived": how},
+                                                  f"{msg} case={c}", c)
     else:
         for case in job[1]:
             acc.evals += 1
@@ -359,6 +390,7 @@ def run(ctx) -> None:
     for api in ("generic", "rdflib"):
         for lo, hi in pool.split_range(n, 24):
             jobs.append(("header", api, lo, hi, names))
+    jobs.append(("derived",))
     pc = parse_cases()
     jobs += [("parse", pc[i::8]) for i in range(8)]
     merged = pool.merge(pool.pmap(shard, jobs))
@@ -374,7 +406,9 @@ def run(ctx) -> None:
             "header: 3 stream classes x 8 logical types x presets (names{8,9,4000,4096,5000} x "
             "prefixes,datatypes{0,1,150,4096,5000}, all three distinct) x generalized x rdf_star x "
             "namespace_declarations x delimited x stream names x requested versions, written by "
-            "the real Stream API, header compared writer<->wire(jwire)<->reader field by field; "
+            "the real Stream API (also from an options object that configured another stream "
+            "before and was then mutated or copied with dataclasses.replace), header compared "
+            "writer<->wire(jwire)<->reader field by field; "
             "parse: all 4x8 physical/logical pairs (construction + hand-built streams, 6 parsers), "
             "strict/non-strict acceptance table, table-size and version limits; non-trivial = "
             "allowed configuration"
